@@ -423,6 +423,7 @@ PROPS = {
     },
     "C14": {
         "theorems": {
+            "Solstat.Props.C11Sections": ["names_as_reviewed"],
             "Solstat.Props.C14": ["documented_names_accepted", "documentation_complete", "tables_injective", "defaults_selectable",
                                   "tables_lowercase", "dispatch_by_name", "names_by_name", "patterns_residue_empty", "asciiLower_idem",
                                   "strTo_case_insensitive", "strTo_accepts", "strTo_unknown", "mapNames_ok", "resolve_patterns",
@@ -477,6 +478,7 @@ PROPS = {
             "Solstat.Props.C18": ["run_frame", "run_failure_writes_nothing", "run_writes_render", "old_report_overwritten",
                                   "report_name_ineligible", "effects_complete"],
             "Solstat.Props.C16": ["ineligible_inert", "ineligible_cannot_fail"],
+            "Solstat.Props.System": ["main_run", "main_failure_writes_nothing", "main_run_optimizations", "main_run_vulnerabilities", "main_run_qa"],
         },
         "obs": [("render", [])],
         "kinds": ["FULLREPORT"],
